@@ -2048,7 +2048,7 @@ fn configs(r: &Report) -> Vec<Cfg> {
         max_strands: 1,
         pins: false,
         nested: false,
-        depth: if quick { 5 } else { 6 },
+        depth: if quick { 5 } else { 7 },
         probe_depth: if quick { 3 } else { 6 },
         prefix: vec![],
         last_level_settle_fork_only: quick,
@@ -2061,7 +2061,7 @@ fn configs(r: &Report) -> Vec<Cfg> {
         max_strands: 1,
         pins: false,
         nested: false,
-        depth: if quick { 4 } else { 5 },
+        depth: if quick { 4 } else { 6 },
         probe_depth: if quick { 3 } else { 4 },
         prefix: vec![],
         last_level_settle_fork_only: true,
@@ -2074,7 +2074,7 @@ fn configs(r: &Report) -> Vec<Cfg> {
         max_strands: 2,
         pins: true,
         nested: false,
-        depth: if quick { 4 } else { 5 },
+        depth: if quick { 4 } else { 6 },
         probe_depth: if quick { 2 } else { 4 },
         prefix: vec![Op::Fork { k: 1, src: 0, t: 0 }],
         last_level_settle_fork_only: quick,
@@ -2090,7 +2090,7 @@ fn configs(r: &Report) -> Vec<Cfg> {
         max_strands: 2,
         pins: false,
         nested: false,
-        depth: if quick { 4 } else { 5 },
+        depth: if quick { 4 } else { 6 },
         probe_depth: 2,
         prefix: vec![Op::Fork { k: 1, src: 0, t: 0 }, Op::Fork { k: 2, src: 0, t: 0 }],
         last_level_settle_fork_only: true,
@@ -2105,7 +2105,7 @@ fn configs(r: &Report) -> Vec<Cfg> {
         max_strands: 1,
         pins: false,
         nested: false,
-        depth: if quick { 4 } else { 5 },
+        depth: if quick { 4 } else { 6 },
         probe_depth: 2,
         prefix: vec![Op::Fork { k: 1, src: 0, t: 0 }],
         last_level_settle_fork_only: true,
